@@ -551,7 +551,7 @@ def _operand_list(e: ast.AST, fi: FuncInfo) -> Optional[str]:
 def esccall(repo: Repo) -> List[Ob]:
     obs: List[Ob] = []
     sites = 0
-    for fi in repo.all_functions():
+    for fi in repo.scan_functions():
         if fi.module.name != "photon_weave.state.composite_envelope" or fi.cls is None:
             continue
         calls = []
